@@ -15,7 +15,21 @@ use rs_opw_kinematics::rrt::RRTPlanner;
 use rs_opw_kinematics::utils::transition_costs;
 
 pub struct Cell { pub robot: KinematicsWithShape, pub q0: Joints, pub from: Joints, pub land: Pose, pub steps: Vec<Pose>, pub park: Pose, pub layout: &'static str,
-    pub env: Vec<(TriMesh, Isometry3<f32>)>, pub margin: f32, pub link_half: f32 }
+    pub env: Vec<(TriMesh, Isometry3<f32>)>, pub margin: f32, pub link_half: f32,
+    /// planner settings the layout needs (check step, cost limit, recursion depth) and the two check poses the bisection stage should bridge
+    pub tune: Option<(f64, f64, usize)>, pub probe: Option<(Pose, Pose)> }
+
+/// smallest distance between the link boxes at joints `j` and one box obstacle, by parry3d directly (link poses from the bare robot)
+fn box_gap(r: &Robot, j: &Joints, link_half: f32, ob: &TriMesh, ob_pose: &Isometry3<f32>) -> f32 {
+    let link = box_mesh(link_half, link_half, link_half, 1);
+    let mut best = f32::INFINITY;
+    for l in ref_chain(&r.p, j).iter() {
+        let p = ref_to_pose(l);
+        let pf: Isometry3<f32> = Isometry3::from_parts(Translation3::new(p.translation.x as f32, p.translation.y as f32, p.translation.z as f32), p.rotation.cast::<f32>());
+        if let Ok(d) = parry3d::query::distance(&pf, &link, ob_pose, ob) { best = best.min(d); }
+    }
+    best
+}
 
 pub fn make_cell(rng: &mut Rng, layout: u64) -> Cell {
     let p = Parameters::irb2400_10();
@@ -45,7 +59,7 @@ pub fn make_cell(rng: &mut Rng, layout: u64) -> Cell {
             SafetyDistances::standard(CheckMode::FirstCollisionOnly));
         let land = at(0.0, 176.0);
         let from = robot.inverse_continuing(&land, &q0).first().cloned().unwrap_or(q0);
-        return Cell { robot, q0, from, land, steps: vec![at(1.0, 176.0), at(2.0, -176.0)], park: at(3.0, -176.0), layout: "roll", env: vec![], margin: 0.0, link_half: sz };
+        return Cell { robot, q0, from, land, steps: vec![at(1.0, 176.0), at(2.0, -176.0)], park: at(3.0, -176.0), layout: "roll", env: vec![], margin: 0.0, link_half: sz, tune: None, probe: None };
     }
     if layout % 5 == 4 {
         // free space, the stroke passes the wrist singularity (J5 = 0) a millimetre aside: J4/J6 have to swing within a few
@@ -55,7 +69,65 @@ pub fn make_cell(rng: &mut Rng, layout: u64) -> Cell {
         let cons = Constraints::new([-3.1, -2.0, -2.5, -3.1, -2.2, -3.1], [3.1, 2.0, 1.5, 3.1, 2.2, 3.1], BY_PREV);
         let robot = KinematicsWithShape::with_safety(p, cons, meshes, box_mesh(0.1, 0.1, 0.02, 1), Isometry3::identity(), box_mesh(0.01, 0.01, 0.02, 1), Isometry3::identity(), env,
             SafetyDistances::standard(CheckMode::FirstCollisionOnly));
-        return Cell { robot, q0, from: base_q(-0.5), land: at(-0.5), steps: vec![at(-0.35), at(0.35)], park: at(0.5), layout: "wrist", env: vec![], margin: 0.0, link_half: sz };
+        return Cell { robot, q0, from: base_q(-0.5), land: at(-0.5), steps: vec![at(-0.35), at(0.35)], park: at(0.5), layout: "wrist", env: vec![], margin: 0.0, link_half: sz, tune: None, probe: None };
+    }
+    let limits = || Constraints::new([-3.1, -2.0, -2.5, -3.1, -2.2, -3.1], [3.1, 2.0, 1.5, 3.1, 2.2, 3.1], BY_PREV);
+    if layout % 11 == 7 {
+        // the start configuration stands INSIDE the safety distance of an obstacle without touching it (2 mm short of the 3 cm margin):
+        // it is a colliding configuration at the configured safety distances, so no plan may begin with it
+        let margin = 0.03f32;
+        let mut from = q0; from[0] += 0.6 * if rng.bool() { 1.0 } else { -1.0 };
+        let tip = ref_to_pose(&ref_chain(&p, &from)[5]).translation.vector;
+        let out = Vector3::new(tip.x, tip.y, 0.0).normalize();
+        let ob = box_mesh(0.02, 0.02, 0.02, 2);
+        let at = |s: f64| -> Isometry3<f32> { let c = tip + out * s; Isometry3::from_parts(Translation3::new(c.x as f32, c.y as f32, c.z as f32), UnitQuaternion::identity()) };
+        let (mut lo, mut hi) = (0.0f64, 0.4f64);                       // gap(lo) < target <= gap(hi)
+        let target = margin - 0.002;
+        for _ in 0..40 { let m = 0.5 * (lo + hi); if box_gap(&r, &from, sz, &ob, &at(m)) < target { lo = m } else { hi = m } }
+        let pose = at(hi);
+        let gap = box_gap(&r, &from, sz, &ob, &pose);
+        if gap > 0.01 && gap < margin - 0.0005 {
+            let mut safety = SafetyDistances::standard(CheckMode::FirstCollisionOnly);
+            safety.to_environment = margin;
+            env.push(CollisionBody { mesh: box_mesh(0.02, 0.02, 0.02, 2), pose });
+            let robot = KinematicsWithShape::with_safety(p, limits(), meshes, box_mesh(0.1, 0.1, 0.02, 1), Isometry3::identity(), box_mesh(0.01, 0.01, 0.02, 1), Isometry3::identity(), env, safety);
+            return Cell { robot, q0, from, land, steps, park, layout: "start_in_margin", env: vec![(ob, pose)], margin, link_half: sz, tune: None, probe: None };
+        }
+    }
+    if layout % 11 == 9 || (layout >= 11 && layout % 11 == 2) {
+        // a small obstacle that only the middle of one densified step touches: both check poses around it (5 cm apart) are free, the
+        // point half way between them is not; the cost limit is below the cost of that step, so the bisection has to visit the middle
+        let solver = r.solver();
+        let pose_at = |y: f64| -> Pose { Isometry3::from_parts(Translation3::from(p0.translation.vector + dir * y), p0.rotation) };
+        let jq = |y: f64| -> Option<Joints> { solver.inverse_continuing(&pose_at(y), &q0).first().cloned() };
+        if let (Some(ja), Some(jm), Some(jb)) = (jq(0.0), jq(0.025), jq(0.05)) {
+            let ob = box_mesh(0.004, 0.004, 0.004, 2);
+            let side = Vector3::new(1.0, 0.0, 0.0) * if rng.bool() { 1.0 } else { -1.0 };
+            let down = Vector3::new(0.0, 0.0, -1.0);
+            let u = (side * rng.range(0.3, 1.0) + down * rng.range(0.0, 1.0)).normalize();
+            let c0 = p0.translation.vector + dir * 0.025;
+            let at = |s: f64| -> Isometry3<f32> { let c = c0 + u * s; Isometry3::from_parts(Translation3::new(c.x as f32, c.y as f32, c.z as f32), UnitQuaternion::identity()) };
+            // the meshes are surfaces: walk in from outside in millimetre steps to the first touch, then refine
+            let first = (0..300).rev().map(|k| k as f64 * 0.001).find(|x| box_gap(&r, &jm, sz, &ob, &at(*x)) == 0.0);
+            if let Some(touch) = first {
+                let (mut lo, mut hi) = (touch, touch + 0.001);             // touches at lo, free at hi
+                for _ in 0..30 { let m = 0.5 * (lo + hi); if box_gap(&r, &jm, sz, &ob, &at(m)) == 0.0 { lo = m } else { hi = m } }
+                let pose = at(lo - 0.0015);
+                let cost = ref_cost(&ja, &jb, &DEFAULT_TRANSITION_COSTS);
+                let free_elsewhere = [0.0, 0.05, 0.1].iter().all(|y| jq(*y).map(|j| box_gap(&r, &j, sz, &ob, &pose) > 0.002).unwrap_or(false))
+                    && [land, park].iter().all(|k| solver.inverse_continuing(k, &q0).first().map(|j| box_gap(&r, j, sz, &ob, &pose) > 0.002).unwrap_or(false));
+                if box_gap(&r, &jm, sz, &ob, &pose) == 0.0 && free_elsewhere && cost > 1e-3 {
+                    env.push(CollisionBody { mesh: box_mesh(0.004, 0.004, 0.004, 2), pose });
+                    let robot = KinematicsWithShape::with_safety(p, limits(), meshes, box_mesh(0.1, 0.1, 0.02, 1), Isometry3::identity(), box_mesh(0.01, 0.01, 0.02, 1), Isometry3::identity(), env,
+                        SafetyDistances::standard(CheckMode::FirstCollisionOnly));
+                    let steps = vec![pose_at(0.0), pose_at(0.1)];
+                    let park = Isometry3::from_parts(Translation3::from(pose_at(0.1).translation.vector + up), p0.rotation);
+                    let from: Joints = std::array::from_fn(|i| q0[i] + rng.range(-0.05, 0.05));
+                    return Cell { robot, q0, from, land, steps, park, layout: "corner", env: vec![(ob, pose)], margin: 0.0, link_half: sz,
+                        tune: Some((0.05, 0.7 * cost, 6)), probe: Some((pose_at(0.0), pose_at(0.05))) };
+                }
+            }
+        }
     }
     let near_miss = layout % 7 == 5;
     let (layout_name, obstacle) = if near_miss {
@@ -80,7 +152,7 @@ pub fn make_cell(rng: &mut Rng, layout: u64) -> Cell {
     safety.to_environment = margin;
     let robot = KinematicsWithShape::with_safety(p, cons, meshes, box_mesh(0.1, 0.1, 0.02, 1), Isometry3::identity(), box_mesh(0.01, 0.01, 0.02, 1), Isometry3::identity(), env, safety);
     let from: Joints = std::array::from_fn(|i| q0[i] + rng.range(-0.05, 0.05));
-    Cell { robot, q0, from, land, steps, park, layout: layout_name, env: env_rec, margin, link_half: sz }
+    Cell { robot, q0, from, land, steps, park, layout: layout_name, env: env_rec, margin, link_half: sz, tune: None, probe: None }
 }
 
 pub fn planner<'a>(cell: &'a Cell, rng: &mut Rng, include: bool) -> Cartesian<'a> {
@@ -88,6 +160,10 @@ pub fn planner<'a>(cell: &'a Cell, rng: &mut Rng, include: bool) -> Cartesian<'a
     if cell.layout == "roll" {
         return Cartesian { robot: &cell.robot, check_step_m: 0.5, check_step_rad: 1.0, max_transition_cost: 0.02, transition_coefficients: DEFAULT_TRANSITION_COSTS,
             linear_recursion_depth: 14, rrt: RRTPlanner { step_size_joint_space: 0.05, max_try: 300, debug: false }, include_linear_interpolation: include, debug: false };
+    }
+    if let Some((step_m, max_cost, depth)) = cell.tune {
+        return Cartesian { robot: &cell.robot, check_step_m: step_m, check_step_rad: 0.05, max_transition_cost: max_cost, transition_coefficients: DEFAULT_TRANSITION_COSTS,
+            linear_recursion_depth: depth, rrt: RRTPlanner { step_size_joint_space: 0.05, max_try: 300, debug: false }, include_linear_interpolation: include, debug: false };
     }
     Cartesian { robot: &cell.robot, check_step_m: if wrist { 0.5 } else { [0.01, 0.02, 0.05][rng.below(3) as usize] }, check_step_rad: if wrist { 1.0 } else { 0.05 },
         max_transition_cost: if wrist { 0.05 } else { [0.05, 0.1, 0.3][rng.below(3) as usize] }, transition_coefficients: DEFAULT_TRANSITION_COSTS,
@@ -127,7 +203,7 @@ pub fn main(tier: &str, seed: u64, n_override: Option<u64>) {
     // the crate prints progress lines on stdout; they are not JSON and are ignored by the runner
     for idx in 0..n {
         let cell = make_cell(&mut rng, idx);
-        let include = idx % 3 != 2;
+        let include = idx % 3 != 2 || cell.layout == "corner";
         let pl = planner(&cell, &mut rng, include);
         let mut fails: Vec<String> = Vec::new();
         let mut fail = |c: &str| { if !fails.iter().any(|f| f == c) { fails.push(c.into()); } };
@@ -253,7 +329,7 @@ pub fn stages(tier: &str, seed: u64, n_override: Option<u64>) {
             .s("direct", direct).s("class", class).done());
         // ---- adaptive bisection between the first two key poses
         log.lock().unwrap().clear();
-        let (from, to) = (key[0], key[1]);
+        let (from, to) = match cell.probe { Some((a, b)) => (a, b), None => (key[0], key[1]) };
         let starting = cell.q0;
         let starting = { let s = cell.robot.kinematics.inverse_continuing(&from, &starting); if s.is_empty() { continue } else { s[0] } };
         log.lock().unwrap().clear();
